@@ -3,7 +3,10 @@
 A map M over k run-length items is the list of inclusive end positions:
 M[i] - M[i-1] = rep_i >= 1 with M[-1] = -1, i.e. strictly increasing and M[0] >= 0.
 """
-from pyvc.spec import (Clause, Const, Int, IntList, Inv, NoneT, OneOf, OptInt, S, contract,
+import z3
+
+from pyvc import lists as L
+from pyvc.spec import (Clause, Const, Int, IntList, Inv, LView, NoneT, OneOf, OptInt, S, contract,
                        strictly_increasing)
 
 ALL_MAP = {"C01", "C02", "C07"}
@@ -19,6 +22,27 @@ def eff(r):
 def before(m, i):
     """M[i-1] with M[-1] = -1"""
     return S.If(i > 0, lambda: m[i - 1], -1)
+
+
+def _shift(term, delta):
+    x = z3.FreshInt("x")
+    return L.LMap(term, x, x + delta)
+
+
+def imo_term(a):
+    """insert_map_once as a list term: m[:i] ++ [before+rep] ++ [x+rep for x in m[i:]]"""
+    m, i, rep = a.orig_map, a.odf_idx, eff(a.repeated)
+    t = m.term
+    return L.cat_term(L.cat_term(L.slice_term(t, None, i), L.LConc([before(m, i) + rep])),
+                      _shift(L.slice_term(t, i, None), rep))
+
+
+def emo_term(a):
+    """_erase_map_once as a list term: m[:i] ++ [x-rep_i for x in m[i+1:]]"""
+    m, i = a.orig_map, a.odf_idx
+    t = m.term
+    rep = m[i] - before(m, i)
+    return L.cat_term(L.slice_term(t, None, i), _shift(L.slice_term(t, L.simp_int(L.zint(i) + 1), None), -rep))
 
 
 # --------------------------------------------------------------------- insert_map_once
@@ -55,10 +79,12 @@ contract(
         Clause("runs", ALL_MAP, _imo_runs),
         Clause("wf", ALL_MAP, lambda a, r, p: strictly_increasing(r)),
         Clause("alias", {"C10", "C02"}, _imo_alias),
+        Clause("term", ALL_MAP, lambda a, r, p: S.list_eq(r, LView(imo_term(a)) if isinstance(r, LView) else r)),
     ],
     result=IntList,
     result_alias=lambda a: (a.odf_idx == S.len(a.orig_map), "orig_map"),
     modifies=lambda a: ["orig_map"],
+    result_term=imo_term,
 )
 
 
@@ -84,8 +110,10 @@ contract(
         Clause("wf", ALL_MAP, lambda a, r, p: strictly_increasing(r)),
         Clause("fresh", {"C10", "C02"}, lambda a, r, p: S.And(
             S.Not(S.same(r, a.orig_map)), S.list_eq(p.orig_map, a.orig_map))),
+        Clause("term", ALL_MAP, lambda a, r, p: S.list_eq(r, LView(emo_term(a)) if isinstance(r, LView) else r)),
     ],
     result=IntList,
+    result_term=emo_term,
 )
 
 
